@@ -899,6 +899,14 @@ func (p *pendingReadIndex) add(sys pb.SystemCtx, reqs []*RequestState) {
 	p.mu.Lock()
 	defer p.mu.Unlock()
 	if p.stopped {
+		// these requests have already been taken out of the request queue, they
+		// are no longer reachable by close(), terminate them here so they are
+		// not left without any result
+		for _, req := range reqs {
+			if req != nil {
+				req.terminated()
+			}
+		}
 		return
 	}
 	if _, ok := p.batches[sys]; ok {
